@@ -3,7 +3,8 @@
 selftest/<pid>/*.patch are small diffs against /repo (gate deleted, release dropped, operator flipped,
 the reverse of a fix …).  Each is applied to a scratch copy of src/ + include/ under .work/, the same
 property check is run on the copy (the analyzer on modified source — EphemeralNet is not executed),
-and a violation is required.  A patch that no longer applies is reported as skipped."""
+and a violation is required.  A patch that no longer applies is reported as skipped.
+Patches named benign-*.patch are behaviour-preserving edits (renames, reordering): on those the check must stay silent."""
 import glob
 import importlib
 import os
@@ -62,6 +63,10 @@ def run_variant(pid, patch):
             new = ['analysis-broken: %s' % e]
             status = 'detected (analysis broken)'
         exp = expectations(patch)
+        if os.path.basename(patch).startswith('benign-'):
+            # behaviour-preserving edit (rename, reorder, extract helper): the check must stay silent
+            status = 'silent (as required)' if not new else 'FALSE-ALARM on a behaviour-preserving edit'
+            return {'patch': os.path.basename(patch), 'status': status, 'reported': new[:6]}
         if status == 'detected' and exp and not all(any(x in k for k in new) for x in exp):
             status = 'MISSED (violations reported, but not the seeded instance %s)' % exp
         return {'patch': os.path.basename(patch), 'status': status, 'reported': new[:6]}
@@ -78,6 +83,10 @@ def run(ck, pid):
     else:
         results = [run_variant(pid, p) for p in patches]
     ck.extra['seeded_variants'] = results
+    noisy = [r for r in results if r['status'].startswith('FALSE-ALARM')]
+    if noisy:
+        raise AnalysisBroken('checker self-validation failed: alarm on behaviour-preserving variant(s): %s'
+                             % ', '.join('%s %s' % (r['patch'], r['reported'][:2]) for r in noisy))
     missed = [r for r in results if r['status'].startswith('MISSED')]
     if missed:
         raise AnalysisBroken('checker self-validation failed: seeded variant(s) not detected: %s'
